@@ -175,6 +175,7 @@ Inductive op : Set :=
 | OSetTid (n : N) | OSetFlags (n : N) | OSetRcode (n : N) | OSetOpcode (n : N) | OSetResponse (b : bool)
 | OInsertText (sec : section) (text : bytes)
 | OInsertQuestion (name : bytes) (rtype : N)
+| OInsertRaw (sec : section) (name : bytes) (rtype : N) (rdlen : nat)   (* RR::new with [rdlen] bytes 'a' of data, then insert_rr *)
 | ORename (target source : bytes) (sfx : bool)
 | ORecompute
 | OQuestionRaw0 | OQuestionRaw | OQuestion | OQtypeQclass
@@ -213,6 +214,12 @@ Definition exec_op (o : op) (v : ppacket) : ppacket * res opout :=
   | OInsertQuestion name rtype =>
     match rr_new_question name rtype CLASS_IN with
     | Ok rr => out_unit (run_pp (m_insert_rr SQuestion rr) v)
+    | Err e => (v, Ok (OutErr e))
+    | Panic x => (v, Panic x)
+    end
+  | OInsertRaw sec name rtype rdlen =>
+    match rr_new name 1 CLASS_IN rtype (repeat 97%N rdlen) with
+    | Ok rr => out_unit (run_pp (m_insert_rr sec rr) v)
     | Err e => (v, Ok (OutErr e))
     | Panic x => (v, Panic x)
     end
